@@ -258,7 +258,9 @@ class Interp:
         """C03: at the instant an outcome becomes visible to user code the backend holds the terminal record."""
         if kind in ("create_callback",):
             return
-        if exc is not None and isinstance(exc, (sdk_exc.InvocationError, sdk_exc.ValidationError)):
+        if exc is not None and isinstance(exc, sdk_exc.StepInterruptedError) and kind == "step":
+            pass  # raised only after the retry strategy declined: the step's final failure, recorded before it is raised
+        elif exc is not None and isinstance(exc, (sdk_exc.InvocationError, sdk_exc.ValidationError)):
             return  # invocation-level errors are not operation outcomes
         if exc is not None and isinstance(exc, sdk_exc.ExecutionError) and not isinstance(exc, sdk_exc.CallbackError):
             return
@@ -356,6 +358,10 @@ class Interp:
             return self._wfcond(st, ctx, path)
         if op == "log":
             return self._log(st, ctx, path)
+        if op == "sleep":
+            # plain (non-durable) user computation between durable calls: virtual time passes, batches leave meanwhile
+            self.sched.sleep(st["secs"])
+            return None
         if op == "try":
             return self._try(st, ctx, path)
         if op == "raise":
